@@ -110,9 +110,50 @@ func (c *clientConn) recv() error {
 			return fmt.Errorf("sid not found: %d", sid)
 		}
 
+		if err := checkResponse(typ, data); err != nil {
+			// Do not hand a malformed response to the decoding of the request,
+			// which slices into the data without bounds checks: fail that request.
+			ch <- result{err: fmt.Errorf("sftp: malformed %v packet: %w", typ, err)}
+			continue
+		}
+
 		vhookChan("cc.deliver.recv", sid, ch)
 		ch <- result{typ: typ, data: data}
 	}
+}
+
+// checkResponse verifies that the lengths and counts inside a response packet
+// are covered by the data actually received (data starts with the request id).
+func checkResponse(typ fxp, data []byte) error {
+	b := data[4:]
+
+	var err error
+	switch typ {
+	case sshFxpStatus:
+		// The status code is mandatory; servers are known to omit message and language tag.
+		_, _, err = unmarshalUint32Safe(b)
+
+	case sshFxpHandle, sshFxpData:
+		_, _, err = unmarshalStringSafe(b)
+
+	case sshFxpAttrs:
+		_, _, err = unmarshalAttrs(b)
+
+	case sshFxpName:
+		var count uint32
+		count, b, err = unmarshalUint32Safe(b)
+		for i := uint32(0); i < count && err == nil; i++ {
+			if _, b, err = unmarshalStringSafe(b); err != nil {
+				break
+			}
+			if _, b, err = unmarshalStringSafe(b); err != nil {
+				break
+			}
+			_, b, err = unmarshalAttrs(b)
+		}
+	}
+
+	return err
 }
 
 func (c *clientConn) putChannel(ch chan<- result, sid uint32) bool {
